@@ -102,6 +102,9 @@ func parseCfg(w []string) (caseCfg, bool) {
 }
 
 func exec(c proto.Case, o *proto.Out) []string {
+	if len(c.Ops) > 0 && strings.HasPrefix(c.Ops[0], "stress-") {
+		return execStress(c, o)
+	}
 	outs := make([]string, len(c.Ops))
 	var e *engine
 	defer func() {
